@@ -3,7 +3,8 @@
 // A case is one grid (float/double x 2D/3D) plus a sequence of casts on ONE reused caster,
 // mixing the cast overloads, the manual next() loop, stray calls that disturb the traversal
 // state and changes of the grid the caster sees (setGridIndexMapping with another mapping, or a
-// new mapping assigned to the pointed-to object) followed by a cast from the same origin.  Every cast is checked against
+// new mapping assigned to the pointed-to object) followed by a cast from the same origin, and
+// calls whose arguments are references to the caster's own origin / end point.  Every cast is checked against
 //   * exact, combinatorial oracles: first cell, number of cells = L1 + 1, face-adjacent steps,
 //     indexes inside the grid, accessors, bitwise equality with a fresh caster (history);
 //   * geometric oracles in long double, on the grid geometry published by the mapping (cell
@@ -35,10 +36,28 @@ const char * const RK_NAME[RK_COUNT] = {
   "ray_generic", "ray_coincident", "ray_same_cell", "ray_axis_aligned", "ray_planar",
   "ray_diagonal", "ray_near_axis", "ray_extent_corners", "ray_reverse", "ray_border_end"};
 
-enum ApiMode {API_CAST_OE = 0, API_SETO_CAST_E, API_CAST_E_KEEP_ORIGIN, API_SET_SET_CAST, API_NEXT_LOOP, API_COUNT};
+enum ApiMode
+{
+  API_CAST_OE = 0, API_SETO_CAST_E, API_CAST_E_KEEP_ORIGIN, API_SET_SET_CAST, API_NEXT_LOOP,
+  // arguments that are references to the caster's own members (no copy in between)
+  API_ALIAS_FIRST,
+  API_AL_CAST_END_Q = API_ALIAS_FIRST,   // cast(getEndPoint(), q)             polyline
+  API_AL_CAST_P_ORIGIN,                  // cast(p, getOriginPoint())          back to the previous origin
+  API_AL_CAST_END_ORIGIN,                // cast(getEndPoint(), getOriginPoint())   reverse ray
+  API_AL_CAST_ORIGIN_END,                // cast(getOriginPoint(), getEndPoint())   same ray again
+  API_AL_CAST_END,                       // cast(getEndPoint())
+  API_AL_CAST_ORIGIN,                    // cast(getOriginPoint())             coincident
+  API_AL_SETEND_ORIGIN_CAST,             // setEndPoint(getOriginPoint()); cast()
+  API_AL_SETORIGIN_END_CAST_Q,           // setOriginPoint(getEndPoint()); cast(q)
+  API_COUNT
+};
+const int API_REGULAR_COUNT = API_ALIAS_FIRST;
 const char * const API_NAME[API_COUNT] = {
   "api_cast_o_e", "api_setorigin_cast_e", "api_cast_e_keep_origin", "api_setorigin_setend_cast",
-  "api_next_loop"};
+  "api_next_loop",
+  "api_alias_cast_getend_q", "api_alias_cast_p_getorigin", "api_alias_cast_getend_getorigin",
+  "api_alias_cast_getorigin_getend", "api_alias_cast_getend", "api_alias_cast_getorigin",
+  "api_alias_setend_getorigin_cast", "api_alias_setorigin_getend_cast_q"};
 
 enum Disturb {DI_NONE = 0, DI_NEXT, DI_STALE_CAST, DI_SETEND, DI_SETORIGIN, DI_COUNT};
 const char * const DI_NAME[DI_COUNT] = {
@@ -381,6 +400,22 @@ struct Runner
           if (std::memcmp(ray[k].data(), fresh[k].data(), sizeof(size_t) * D) != 0) {same = false; where = k; break;}
         }
       }
+      if (ci.api >= API_ALIAS_FIRST) {
+        // the arguments were references to the caster's own origin / end point: the ray asked for
+        // is the one between the VALUES they had at the call (ci.o, ci.e), which is what a fresh
+        // caster given copies returns, and the caster must then hold those two points.  A difference gets its own kind; the other oracles would
+        // only repeat it (wrong length, wrong first/last cell).
+        c.count("casts_with_aliased_arguments");
+        const bool points_kept = rc.getOriginPoint() == ci.o && rc.getEndPoint() == ci.e;
+        bool ok = c.expect("alias.equals_cast_of_copied_values", same && points_kept, "aliased_argument", params, [&]() {
+            return vh::J().raw("case", wit()).f("cells_expected", static_cast<uint64_t>(fresh.size()))
+                   .raw("expected_first_cells", ray_json(fresh, 0, 3))
+                   .raw("expected_last_cells", ray_json(fresh, fresh.size() > 3 ? fresh.size() - 3 : 0, fresh.size()))
+                   .raw("caster_origin_after", vh::jvec(rc.getOriginPoint()))
+                   .raw("caster_end_after", vh::jvec(rc.getEndPoint())).str();
+          });
+        if (!ok) {return false;}
+      }
       c.expect("history.equals_fresh_caster", same, "history_dependence", params, [&]() {
           return vh::J().raw("case", wit()).f("fresh_cells_returned", static_cast<uint64_t>(fresh.size()))
                  .raw("fresh_cells_around", ray_json(fresh, where > 3 ? where - 3 : 0, where + 3)).str();
@@ -712,7 +747,11 @@ struct Runner
       }
 
       // -------- the cast
-      int api = static_cast<int>(r.range(0, API_COUNT - 1));
+      int api = static_cast<int>(r.range(0, API_REGULAR_COUNT - 1));
+      // aliased arguments need the caster's own points to be points of the current grid
+      if (have_prev && !after_change && r.coin(0.25)) {
+        api = static_cast<int>(r.range(API_ALIAS_FIRST, API_COUNT - 1));
+      }
       if (api == API_CAST_E_KEEP_ORIGIN && !(have_prev || di == DI_SETORIGIN)) {api = API_SETO_CAST_E;}
       if (api == API_CAST_E_KEEP_ORIGIN && after_change) {api = r.coin() ? API_CAST_OE : API_SETO_CAST_E;}
       if (api == API_CAST_E_KEEP_ORIGIN) {
@@ -725,6 +764,23 @@ struct Runner
         }
       }
       Ray ray;
+      if (api >= API_ALIAS_FIRST) {
+        // expected ray: between the values the references have right now (copies for the oracle
+        // only; the library receives the references)
+        const P own_o = rc.getOriginPoint(), own_e = rc.getEndPoint();
+        rk = RK_GENERIC;
+        switch (api) {
+          case API_AL_CAST_END_Q: o = own_e; ray = rc.cast(rc.getEndPoint(), e); break;
+          case API_AL_CAST_P_ORIGIN: e = own_o; ray = rc.cast(o, rc.getOriginPoint()); break;
+          case API_AL_CAST_END_ORIGIN: o = own_e; e = own_o; ray = rc.cast(rc.getEndPoint(), rc.getOriginPoint()); break;
+          case API_AL_CAST_ORIGIN_END: o = own_o; e = own_e; ray = rc.cast(rc.getOriginPoint(), rc.getEndPoint()); break;
+          case API_AL_CAST_END: o = own_o; e = own_e; ray = rc.cast(rc.getEndPoint()); break;
+          case API_AL_CAST_ORIGIN: o = own_o; e = own_o; rk = RK_COINCIDENT; ray = rc.cast(rc.getOriginPoint()); break;
+          case API_AL_SETEND_ORIGIN_CAST:
+            o = own_o; e = own_o; rk = RK_COINCIDENT; rc.setEndPoint(rc.getOriginPoint()); ray = rc.cast(); break;
+          default: o = own_e; rc.setOriginPoint(rc.getEndPoint()); ray = rc.cast(e); break;
+        }
+      } else {
       switch (api) {
         case API_CAST_OE: ray = rc.cast(o, e); break;
         case API_SETO_CAST_E: rc.setOriginPoint(o); ray = rc.cast(e); break;
@@ -740,6 +796,7 @@ struct Runner
             for (size_t q = 1; q < n; ++q) {rc.next(cur); ray[q] = cur;}
             break;
           }
+      }
       }
       RC fresh_caster(&m);
       Ray fresh = fresh_caster.cast(o, e);
